@@ -190,6 +190,7 @@ pub static C05: Profile = Profile {
     liveness: true,
     enumerate: None,
     extra: None,
+    borrow: &[],
     assumptions: &["'resumes as soon as the reducer makes room' is decided as absence of deadlock under generated schedules plus completion on real threads, not as a latency bound"],
 };
 
@@ -397,6 +398,7 @@ pub static C06: Profile = Profile {
     liveness: true,
     enumerate: None,
     extra: None,
+    borrow: &[],
     assumptions: &[
         "no drop-policy channeled subscribers are attached (their discards share the store's dropped-actions counter)",
         "closing the store on a still-full queue costs one more action under DropOldest (the shutdown marker is admitted like any item); which action is hit then depends on the race with the reducer, so stalled-burst scenarios wait for the survivors' notifications before stopping and the exact-survivor clauses are applied only when every survivor was taken before the first shutdown call",
